@@ -73,3 +73,17 @@ def agree(src, bindings):
     if type(vi) is not type(vc):
         return False, f"{where}: interpreter class {type(vi).__name__}; compiled class {type(vc).__name__}"
     return True, "agree"
+
+
+def repeat(src, vals):
+    """one program per runner evaluated with a sequence of activations binding different name sets"""
+    from celpy import celtypes as ct
+    I = ct.IntType
+    progs = {r: make_program(src, r) for r in ("interp", "compiled")}
+    seq = [{"a": I(vals["a"]), "b": I(vals["b"])}, {"a": I(vals["a2"])}, {"b": I(vals["b2"])}, {}, {"a": I(vals["a2"]), "b": I(vals["b2"])}, {"b": I(vals["b"])}]
+    for i, act in enumerate(seq):
+        ki, vi = evaluate_outcome(lambda: progs["interp"].evaluate(dict(act)))
+        kc, vc = evaluate_outcome(lambda: progs["compiled"].evaluate(dict(act)))
+        if ki != kc or (ki == "value" and (vi != vc or type(vi) is not type(vc))):
+            return False, f"`{src}`, evaluation {i + 1} of the same programs with bindings {sorted(act)}: interp {ki} {vi!r:.60}, compiled {kc} {vc!r:.60}"
+    return True, "ok"
